@@ -407,6 +407,8 @@ func runPipeCase(c *sup.Child, idx int, script bool, viol *int) {
 		pipeScript(c, idx, rng, viol)
 	case idx%12 == 3:
 		pipeNested(c, idx, rng, viol)
+	case idx%12 == 9:
+		pipeKilledHolder(c, idx, rng, viol)
 	case idx%3 == 0:
 		pipePair(c, idx, rng, viol)
 	case idx%3 == 1 && idx%2 == 0:
